@@ -38,7 +38,9 @@ def decode_escapes(s):
 def _decode_string_token(t):
     try:
         return decode_escapes(t.value[1:-1])
-    except UnicodeDecodeError:
+    except UnicodeError:
+        # ill-formed escape (decode error) or a lone surrogate inside an
+        # escape sequence (the codec cannot encode the text to decode it)
         raise exceptions.YaqlLexicalException(t.value, t.lexpos)
 
 
